@@ -1,5 +1,5 @@
 use crate::{
-    geometry::Point,
+    geometry::{Dimensions, Point},
     primitives::{
         common::Scanline,
         rounded_rectangle::{RoundedRectangle, RoundedRectangleContains},
@@ -56,36 +56,41 @@ impl Iterator for Scanlines {
         let columns = self.rounded_rectangle.columns.clone();
         let y = self.rounded_rectangle.rows.next()?;
 
+        // Rows of a corner in which no pixel is inside the corner's ellipse start (or end) at the
+        // inner edge of the corner instead of the edge of the rectangle.
         let x_start = if y < self.rounded_rectangle.straight_rows_left.start {
+            let corner = &self.rounded_rectangle.top_left;
             columns
                 .clone()
-                .find(|x| self.rounded_rectangle.top_left.contains(Point::new(*x, y)))
+                .find(|x| corner.contains(Point::new(*x, y)))
+                .unwrap_or(corner.bounding_box().columns().end)
         } else if y >= self.rounded_rectangle.straight_rows_left.end {
-            columns.clone().find(|x| {
-                self.rounded_rectangle
-                    .bottom_left
-                    .contains(Point::new(*x, y))
-            })
+            let corner = &self.rounded_rectangle.bottom_left;
+            columns
+                .clone()
+                .find(|x| corner.contains(Point::new(*x, y)))
+                .unwrap_or(corner.bounding_box().columns().end)
         } else {
-            None
-        }
-        .unwrap_or(columns.start);
+            columns.start
+        };
 
         let x_end = if y < self.rounded_rectangle.straight_rows_right.start {
+            let corner = &self.rounded_rectangle.top_right;
             columns
                 .clone()
-                .rfind(|x| self.rounded_rectangle.top_right.contains(Point::new(*x, y)))
+                .rfind(|x| corner.contains(Point::new(*x, y)))
+                .map(|x| x + 1)
+                .unwrap_or(corner.bounding_box().columns().start)
         } else if y >= self.rounded_rectangle.straight_rows_right.end {
-            columns.clone().rfind(|x| {
-                self.rounded_rectangle
-                    .bottom_right
-                    .contains(Point::new(*x, y))
-            })
+            let corner = &self.rounded_rectangle.bottom_right;
+            columns
+                .clone()
+                .rfind(|x| corner.contains(Point::new(*x, y)))
+                .map(|x| x + 1)
+                .unwrap_or(corner.bounding_box().columns().start)
         } else {
-            None
-        }
-        .map(|x| x + 1)
-        .unwrap_or(columns.end);
+            columns.end
+        };
 
         Some(Scanline::new(y, x_start..x_end))
     }
